@@ -103,8 +103,9 @@ def gen_tree(r, depth, counter, side=None, self_kw=None):
 
 
 # class numbers of the model (model/CallTree.v: an exception carries the ancestry of its class, most derived first)
-MRO = {"ValueError": [2, 1, 0], "KeyError": [4, 3, 1, 0], "NodeError": [5, 2, 1, 0], "GeneratorExit": [6, 0], "Abort": [7, 0]}
-CATCH_SX = {None: [0, []], "all": [0, [1]], "ValueError": [0, [2]], "KeyError": [0, [4]], "base": [0, [0]]}
+MRO = {"ValueError": [2, 1, 0], "KeyError": [4, 3, 1, 0], "NodeError": [5, 2, 1, 0], "GeneratorExit": [6, 0], "Abort": [7, 0],
+       "OSError": [12, 11, 1, 0]}        # FileNotFoundError (12) < OSError (11) < Exception < BaseException
+CATCH_SX = {None: [0, []], "all": [0, [1]], "ValueError": [0, [2]], "KeyError": [0, [4]], "base": [0, [0]], "OSError": [0, [11]]}
 # what the connection does to a class the receiver is configured not to rebuild (the default): a stand-in derived from vinegar's
 # GenericException (9), itself an Exception - also for a class that was NOT an Exception
 DEFAULT_TABLE = [[5, [8, 9, 1, 0]], [7, [10, 9, 1, 0]]]
@@ -257,8 +258,15 @@ class Halt(BaseException):
 
 
 EXC = {"ValueError": ValueError, "KeyError": KeyError, "NodeError": NodeError,      # NodeError: a user-defined subclass of ValueError
-       "GeneratorExit": GeneratorExit, "Abort": Halt}                                # outside the Exception hierarchy
-CATCH = {"all": Exception, "ValueError": ValueError, "KeyError": KeyError, "base": BaseException}
+       "GeneratorExit": GeneratorExit, "Abort": Halt,                                # outside the Exception hierarchy
+       # a built-in class whose data lives in C-level fields beside args (errno, strerror, filename): the catching side reads them
+       "OSError": (lambda i: FileNotFoundError(i, "missing", "/n/%d" % i))}
+CATCH = {"all": Exception, "ValueError": ValueError, "KeyError": KeyError, "base": BaseException, "OSError": OSError}
+
+
+def exc_data(e):
+    """what catching code reads off an exception beside its class and args"""
+    return (e.errno, e.strerror, e.filename) if isinstance(e, OSError) else None
 CUSTOM_OK = {"import_custom_exceptions": True, "instantiate_custom_exceptions": True, "instantiate_oldstyle_exceptions": True}
 
 
@@ -269,8 +277,8 @@ def gen_tree2(r, depth, counter, side=None):
     kids = []
     if depth > 0:
         for _ in range(r.choice([0, 1, 1, 2, 2, 3])):
-            kids.append([gen_tree2(r, depth - r.choice([1, 1, 2]), counter), r.choice([None, None, "all", "ValueError", "ValueError", "KeyError", "base"])])
-    return {"side": side, "id": nid, "kids": kids, "raises": r.choice([None, None, None, None, "ValueError", "KeyError", "NodeError", "NodeError", "GeneratorExit", "Abort"]),
+            kids.append([gen_tree2(r, depth - r.choice([1, 1, 2]), counter), r.choice([None, None, "all", "ValueError", "ValueError", "KeyError", "base", "OSError"])])
+    return {"side": side, "id": nid, "kids": kids, "raises": r.choice([None, None, None, None, "ValueError", "KeyError", "NodeError", "NodeError", "GeneratorExit", "Abort", "OSError"]),
             "shape": r.choice(["int", "mixed", "mixed", "callable", "list"])}
 
 
@@ -321,7 +329,7 @@ def run_tree2(root, remote, cfg_extra, cfg_extra_b=None):
             except BaseException as e:
                 if isinstance(e, (C.Hang, KeyboardInterrupt, SystemExit, MemoryError)) or catch is None or not isinstance(e, CATCH[catch]):
                     raise
-                log.append(("caught", t["id"], k["id"]))
+                log.append(("caught", t["id"], k["id"], exc_data(e)))
         if t["raises"]:
             raise EXC[t["raises"]](t["id"])
         return result_of(t, acc)
@@ -349,7 +357,7 @@ def run_tree2(root, remote, cfg_extra, cfg_extra_b=None):
         except BaseException as e:
             if isinstance(e, (KeyboardInterrupt, SystemExit, MemoryError)):
                 raise
-            out = ("exc", isinstance(e, ValueError), isinstance(e, KeyError), isinstance(e, Exception), isinstance(e, GeneratorExit), tuple(e.args))
+            out = ("exc", isinstance(e, ValueError), isinstance(e, KeyError), isinstance(e, Exception), isinstance(e, GeneratorExit), tuple(e.args), exc_data(e))
         return out, log, {k: list(v) for k, v in kept.items()}
     finally:
         run_tree2.last_crashes = [repr(e)[:80] for _, e in getattr(ca, "_harness_crashes", [])] if ca is not None else []
